@@ -21,6 +21,10 @@ type OblResult struct {
 	Func    string
 	Model   map[string]string
 	Residual bool // proved only under ¬except of a known finding
+	KnownLine string
+	KnownNote string
+	Replay    *ReplayOutcome
+	Relaxed   bool // model comes from the quantifier-free relaxation of the query
 }
 
 type FuncResult struct {
@@ -40,6 +44,8 @@ type VerifyOpts struct {
 	Agree     int
 	Findings  []*Finding
 	OnlyObl   *regexp.Regexp
+	Prop      string
+	NoReplay  bool
 }
 
 func (P *Program) verifyFunc(key string, opts *VerifyOpts) (res *FuncResult) {
@@ -110,6 +116,41 @@ func (P *Program) verifyFunc(key string, opts *VerifyOpts) (res *FuncResult) {
 		res.Inlined = append(res.Inlined, n)
 	}
 	sort.Strings(res.Inlined)
+	// known findings: evaluate the except predicates in the entry state (sequentially: evaluation may declare symbols)
+	for _, e := range encs {
+		for _, o := range e.obls {
+			for _, f := range opts.Findings {
+				if f.Obligation != o.Name {
+					continue
+				}
+				func() {
+					defer func() {
+						if r := recover(); r != nil {
+							if se, ok := r.(SpecError); ok {
+								res.Err = fmt.Errorf("known finding %s: except predicate: %s", f.ID, se.Msg)
+								return
+							}
+							panic(r)
+						}
+					}()
+					n, err := parseSpec(f.Except)
+					if err != nil {
+						res.Err = fmt.Errorf("known finding %s: %v", f.ID, err)
+						return
+					}
+					ctx := &SpecCtx{e: e, names: e.topNames, heap: e.h0, old: e.h0, pkg: spec.Pkg}
+					o.Except = ctx.evalBool(n)
+					o.Finding = f
+				}()
+			}
+		}
+		if e.top != nil {
+			e.watchParams()
+		}
+	}
+	if res.Err != nil {
+		return
+	}
 	// discharge
 	var wg sync.WaitGroup
 	for _, e := range encs {
@@ -117,6 +158,11 @@ func (P *Program) verifyFunc(key string, opts *VerifyOpts) (res *FuncResult) {
 		res.Results = append(res.Results, make([]*OblResult, len(e.obls))...)
 		for i, o := range e.obls {
 			if opts.OnlyObl != nil && !opts.OnlyObl.MatchString(o.Name) {
+				res.Results[base+i] = &OblResult{Obl: o, Status: "skipped", Func: key}
+				continue
+			}
+			if opts.Prop != "" && len(o.Tags) > 0 && !containsStr(o.Tags, opts.Prop) {
+				// a clause tagged for other properties only: it is discharged by those properties' checks
 				res.Results[base+i] = &OblResult{Obl: o, Status: "skipped", Func: key}
 				continue
 			}
@@ -180,6 +226,7 @@ func (e *Enc) encodeTop(fn *ssa.Function, spec *FuncSpec, caseIdx int) {
 		}
 		params = append(params, v)
 	}
+	e.h0 = h0
 	fr := e.newFrame(fn, nil, params, h0)
 	fr.isTop = true
 	fr.spec = spec
@@ -197,6 +244,7 @@ func (e *Enc) encodeTop(fn *ssa.Function, spec *FuncSpec, caseIdx int) {
 		ctx := &SpecCtx{e: e, names: names, heap: h0, old: h0, pkg: spec.Pkg}
 		e.assume("true", ctx.evalBool(c.Expr))
 	}
+	e.topNames = names
 	key := funcKey(fn)
 	if caseIdx >= 0 {
 		ctx := &SpecCtx{e: e, names: names, heap: h0, old: h0, pkg: spec.Pkg}
@@ -254,8 +302,14 @@ func (e *Enc) encodeTop(fn *ssa.Function, spec *FuncSpec, caseIdx int) {
 	}
 	for i, c := range spec.Ensures {
 		ctx := &SpecCtx{e: e, names: rnames, heap: fs.heap, old: h0, pkg: spec.Pkg}
-		g := ctx.evalBool(c.Expr)
-		e.oblige(fmt.Sprintf("%s#post:%d", strings.Replace(key, "#case", "@case", 1), i+1), "post", fs.reach, g, fmt.Sprintf("%s:%d", filepath.Base(spec.File), c.Line), "ensures "+c.Src, c.Tags)
+		parts := ctx.evalSplit(c.Expr)
+		for j, g := range parts {
+			name := fmt.Sprintf("%s#post:%d", strings.Replace(key, "#case", "@case", 1), i+1)
+			if len(parts) > 1 {
+				name = fmt.Sprintf("%s/%d", name, j+1)
+			}
+			e.oblige(name, "post", fs.reach, g, fmt.Sprintf("%s:%d", filepath.Base(spec.File), c.Line), "ensures "+c.Src, c.Tags)
+		}
 	}
 	if spec.HasMod {
 		e.frameObligations(fr, spec, names, h0, fs)
@@ -265,7 +319,7 @@ func (e *Enc) encodeTop(fn *ssa.Function, spec *FuncSpec, caseIdx int) {
 // frameObligations: everything outside the modifies clause is unchanged for
 // every object that existed at entry.
 func (e *Enc) frameObligations(fr *Frame, spec *FuncSpec, names map[string]Val, h0 *Heap, fs BState) {
-	key := funcKey(fr.fn)
+	_ = funcKey(fr.fn)
 	whole, cells := e.resolveModifies(spec, names, h0)
 	byArr := map[string][]string{}
 	for _, c := range cells {
@@ -291,7 +345,7 @@ func (e *Enc) frameObligations(fr *Frame, spec *FuncSpec, names map[string]Val, 
 			excl = append(excl, not(eq(r, ref)))
 		}
 		goal := implies(and(append([]string{sx("<=", r, q("alloc@0"))}, excl...)...), eq(sel(fin, r), sel(ini, r)))
-		e.oblige(fmt.Sprintf("%s#frame:%s", key, n), "frame", fs.reach, goal, "", "frame: "+n+" unchanged outside the modifies clause", nil)
+		e.oblige(fmt.Sprintf("%s#frame:%s", e.topKey(), n), "frame", fs.reach, goal, "", "frame: "+n+" unchanged outside the modifies clause", nil)
 	}
 	if !spec.Allocs {
 		// results must not be fresh references unless allocs is declared — checked on result refs only
@@ -301,6 +355,12 @@ func (e *Enc) frameObligations(fr *Frame, spec *FuncSpec, names map[string]Val, 
 var reModelLine = regexp.MustCompile(`^\s*\(\((.*)\)\)\s*$`)
 
 func (e *Enc) buildQuery(o *Obl, extra []string, wantModel bool) string {
+	return e.buildQueryX(o, extra, wantModel, false)
+}
+
+// buildQueryX with relaxed=true drops every quantified hypothesis: a model of the relaxation is only a
+// candidate counterexample (it may violate the dropped invariants) and is trusted only if it replays.
+func (e *Enc) buildQueryX(o *Obl, extra []string, wantModel bool, relaxed bool) string {
 	var sb strings.Builder
 	sb.WriteString("(set-option :produce-models true)\n(set-logic ALL)\n")
 	for _, d := range e.decls {
@@ -308,11 +368,14 @@ func (e *Enc) buildQuery(o *Obl, extra []string, wantModel bool) string {
 		sb.WriteByte('\n')
 	}
 	// string literal facts
-	for i, s := range e.P.StrList {
+	for i, s := range e.P.strSnapshot() {
 		fmt.Fprintf(&sb, "(assert (= (str.len %d) %d))\n", i, len(s))
 	}
 	sb.WriteString("(assert (forall ((s Int)) (! (and (>= (str.len s) 0) (=> (= (str.len s) 0) (= s 0))) :pattern ((str.len s)))))\n")
 	for _, l := range e.lines[:o.NLines] {
+		if relaxed && strings.HasPrefix(l, "(assert") && (strings.Contains(l, "(forall ") || strings.Contains(l, "(exists ")) {
+			continue
+		}
 		sb.WriteString(l)
 		sb.WriteByte('\n')
 	}
@@ -360,16 +423,60 @@ func (e *Enc) discharge(o *Obl, fkey string, opts *VerifyOpts) *OblResult {
 		r.Solve = SolveResult{Status: "unsat", Backend: "govc-trivial"}
 		return r
 	}
-	var extra []string
-	extra = append(extra, o.Extra...)
-	writeFile(file, e.buildQuery(o, extra, true))
-	sr := runQuery(file, opts.TimeoutS, opts.Agree, nil)
-	if sr.Status == "unknown" {
-		// escalate once with a longer budget
-		sr2 := runQuery(file, opts.TimeoutS*4, opts.Agree, nil)
-		sr2.Millis += sr.Millis
-		sr = sr2
+	run := func(tag string, extra []string, relaxed bool, agree int) SolveResult {
+		f := file
+		if tag != "" {
+			f = strings.TrimSuffix(file, ".smt2") + "." + tag + ".smt2"
+		}
+		writeFile(f, e.buildQueryX(o, extra, true, relaxed))
+		sr := runQuery(f, opts.TimeoutS, agree, nil)
+		if sr.Status == "unknown" && !relaxed {
+			sr2 := runQuery(f, opts.TimeoutS*3, agree, nil)
+			sr2.Millis += sr.Millis
+			sr = sr2
+		}
+		return sr
 	}
+	if o.Finding != nil {
+		// known finding: the obligation must hold outside the recorded failing region ...
+		sr := run("residual", []string{not(o.Except)}, false, opts.Agree)
+		r.Solve = sr
+		if sr.Status == "unsat" {
+			// ... and the finding is reported only while it still reproduces (canary)
+			can := run("canary", []string{o.Except}, false, 1)
+			if can.Status == "unknown" {
+				can = run("canary-relaxed", []string{o.Except}, true, 1)
+				r.Relaxed = true
+			}
+			if can.Status == "unsat" && !r.Relaxed {
+				r.Status = "discharged"
+				return r
+			}
+			r.Status = "known"
+			r.Residual = true
+			r.Model = parseGetValue(can.Output, e.watch)
+			if o.Finding.appliesTo(opts.Prop) {
+				r.KnownLine = fmt.Sprintf("KNOWN-FINDING: property=%s %s [%s; obligation %s fails exactly when: %s]", opts.Prop, o.Finding.What, o.Finding.ID, o.Name, o.Finding.Except)
+			} else {
+				r.KnownNote = fmt.Sprintf("known finding %s (recorded for %v) lies on this property's closure; residual discharged", o.Finding.ID, o.Finding.Properties)
+			}
+			return r
+		}
+		// a violation outside the recorded region
+		if sr.Status == "sat" {
+			r.Status = "refuted"
+			r.Model = parseGetValue(sr.Output, e.watch)
+		} else {
+			r.Status = "undischarged"
+			rel := run("relaxed", []string{not(o.Except)}, true, 1)
+			if rel.Status == "sat" {
+				r.Model = parseGetValue(rel.Output, e.watch)
+				r.Relaxed = true
+			}
+		}
+		return r
+	}
+	sr := run("", o.Extra, false, opts.Agree)
 	r.Solve = sr
 	switch sr.Status {
 	case "unsat":
@@ -379,6 +486,11 @@ func (e *Enc) discharge(o *Obl, fkey string, opts *VerifyOpts) *OblResult {
 		r.Model = parseGetValue(sr.Output, e.watch)
 	default:
 		r.Status = "undischarged"
+		rel := run("relaxed", o.Extra, true, 1)
+		if rel.Status == "sat" {
+			r.Model = parseGetValue(rel.Output, e.watch)
+			r.Relaxed = true
+		}
 	}
 	return r
 }
@@ -474,3 +586,12 @@ func parseSexps(src string) []*sexp {
 }
 
 var _ = types.Typ
+
+func containsStr(xs []string, x string) bool {
+	for _, y := range xs {
+		if y == x {
+			return true
+		}
+	}
+	return false
+}
